@@ -42,6 +42,17 @@ def run(ev, vd):
         ev.add_tlc(mod, r)
         if not r.ok:
             raise ToolError("design-level model %s violates %s:\n%s" % (mod, r.violation, r.out[-1500:]))
+    # lock-free union-find (merge + incremental path compression), every load / store / CAS one step
+    uf = os.path.join(SP, "MCUnionFind.tla")
+    for cfg in ["MCUnionFind.cfg", "MCUnionFind_b.cfg", "MCUnionFind_c.cfg", "MCUnionFind_d_thorough.cfg", "MCUnionFind_e_thorough.cfg"] + (["MCUnionFind_f_thorough.cfg"] if tier() == "thorough" else []):
+        r = tlc(uf, cfg=os.path.join(SP, cfg), workers=NCPU, timeout=1800)
+        ev.add_tlc(cfg, r)
+        if not r.ok:
+            raise ToolError("UnionFind (%s) violates %s:\n%s" % (cfg, r.violation, r.out[-1500:]))
+    for cfg, want in (("MCUnionFind_noorder.cfg", "Mono"), ("MCUnionFind_plainstore.cfg", "AtEnd")):
+        r = tlc(uf, cfg=os.path.join(SP, cfg), workers=NCPU, timeout=900)
+        if r.ok or r.violation != want:
+            raise ToolError("UnionFind: %s should be rejected for %s, got %s (vacuous model?)" % (cfg, want, r.violation))
     tr = os.path.join(BUILD, "tmp", "collections.ndjson")
     rc, out, dt = sh([fbin("collections"), tr, str(ev.seed), tier()], timeout=1500)
     if rc != 0:
